@@ -363,6 +363,9 @@ func (ex *Exec) hexDecode(cs []*Term) ([]*Term, *Term) {
 		return nil, f.False
 	}
 	nib := func(c *Term) (*Term, *Term) {
+		if n, ok := ex.hexCharNib[c.ID]; ok {
+			return n, f.True
+		}
 		if c.IsConst() {
 			v := c.C.Int64()
 			switch {
